@@ -115,6 +115,13 @@ def material_guard(fx):
         for a in sorted(fp.live_blocks()):
             for (tgt, e, pol, v) in _sec(fp, a):
                 d = deep_strip(e)
+                # the test may be a bool-valued private predicate (`has_overfull_side(&board)`): look at its only return expression
+                if isinstance(d, tuple) and d and d[0] == "call" and isinstance(d[1], str) and fx.body(d[1]) is not None and "fen" in norm(d[1]) and \
+                        (fx.body(d[1]).local_ty(0) or "") == "bool":
+                    hp = [pp for pp in _dp(fx.body(d[1]), 8) if pp[1] is not None]
+                    if len(hp) == 1 and not hp[0][0]:
+                        from facts import substitute_args as _sa
+                        d = deep_strip(_sa(hp[0][1], d[2]))
                 if not (pol is True and isinstance(d, tuple) and d and d[0] == "call" and str(d[1]).endswith("::any") and len(d[2]) == 2):
                     continue
                 arrs = [x for x in walk(d[2][0]) if isinstance(x, tuple) and x and x[0] == "agg" and x[1] == "array"]
@@ -456,7 +463,7 @@ def fen_classes(fx, width_ok):
         return ranks_all_checked(b)
 
     def c_phase_sum(site, fx):
-        return site.family == "arith" and C.in_fn(site, "phased_eval::phase_value") and site.ty == "i16"
+        return site.family == "arith" and "phased_eval::phase_value" in norm(site.body.name) and site.ty == "i16"
 
     def c_from_idxs(site, fx):
         # rank_idx * 8 + file_idx with both indices < 8 at every call site
